@@ -6,9 +6,10 @@
    uses dyadic data so that every float operation of the implementation is exact.
    Values: flat data + kind (python/numpy scalar: not writable through np.nditer; ndarray with a shape; sparse-matrix
    outputs are modelled by their dense array) + complex-dtype flag.
-   Signals are kept at VALUE level (no object identity); the one place where identity matters for this routine —
-   the seed array is installed as the output's sensitivity and a kept allocation is zeroed IN PLACE by reset() —
-   is modelled explicitly (quirk `q_seed_alias`, see known finding NEW_C19_seed_zeroed).
+   Signals are kept at VALUE level (no object identity): the routine installs a deep copy of the seed as the output's
+   sensitivity, every stored snapshot (f0, dx_an) is a copy, add_sensitivity deep-copies its first term — no object is
+   shared between the routine's bookkeeping and a Signal (fixed findings F24/F26: the seed is copied, and the output of
+   interest is reset after blk.reset()).
    Modules are (shallow) response / vjp functions; `poly_module` is the family used by the harness. *)
 From Coq Require Import ZArith QArith Qcanon List Bool.
 Import ListNotations.
@@ -236,8 +237,7 @@ Record fdcfg := {
   c_random : bool;
   c_usedf : option (list val);
   c_rand : list (list Qc);         (* the arrays successive calls of np.random.rand return (supplied by the harness) *)
-  c_order : list (list nat);       (* per input: the order in which np.nditer visits the (logical, C-order) entries *)
-  q_seed_alias : bool              (* the seed object IS the output's sensitivity: a kept allocation is zeroed in place *)
+  c_order : list (list nat)        (* per input: the order in which np.nditer visits the (logical, C-order) entries *)
 }.
 
 Record report := { r_x0 : K; r_dx : Qc; r_an : Qc; r_fd : Qc }.
@@ -266,7 +266,8 @@ Definition make_seed (c : fdcfg) (iout : nat) (output : val) (rand : list (list 
       else (ones_like output (v_cx output), rand)
   end.
 
-(* analytical pass: per output seed, backpropagate, snapshot the input sensitivities, reset *)
+(* analytical pass: per output seed (a deep copy is installed on the output), backpropagate, snapshot the input
+   sensitivities, blk.reset(), Sout.reset() *)
 Record apass := { a_store : store; a_f0 : list (option val); a_df : list (option val); a_dx : list (list (option val)) }.
 
 Fixpoint analytical (c : fdcfg) (blk : net) (inps outps : list sref) (iout : nat) (rand : list (list Qc))
@@ -284,14 +285,9 @@ Fixpoint analytical (c : fdcfg) (blk : net) (inps outps : list sref) (iout : nat
           let s1 := set_sens so (Some df) s in
           let s2 := n_sensitivity blk s1 in
           let dxs := map (fun si => get_sens si s2) inps in
-          let s3 := n_reset blk s2 in
-          (* the seed object is the sensitivity object of the output: if that allocation is kept, reset zeroed it *)
-          let df' := if q_seed_alias c && keep (getsig s2 (s_root so)) &&
-                        match s_slice so with None => true | Some _ => false end
-                     then match se (getsig s3 (s_root so)) with Some z => z | None => df end
-                     else df in
+          let s3 := reset_sig so (n_reset blk s2) in      (* blk.reset(); Sout.reset() *)
           let r := analytical c blk inps rest (S iout) rand' s3 in
-          {| a_store := a_store r; a_f0 := Some output :: a_f0 r; a_df := Some df' :: a_df r; a_dx := dxs :: a_dx r |}
+          {| a_store := a_store r; a_f0 := Some output :: a_f0 r; a_df := Some df :: a_df r; a_dx := dxs :: a_dx r |}
       end
   end.
 
